@@ -1,9 +1,10 @@
 import RdsProofs.Reach
 import RdsProofs.CellsProofs
+import RdsProofs.RefineProofs
 /-!
 # Property C06 — text acceptance thresholds and weighted per-character error level
 
-`C06` = `chkCells` for every history (each addressed cell is the closed form `cellSpec`: accepted iff eB ≤ info ∧
+`C06` = `chkC06` for every history (each addressed cell is, progressive correction aside, the closed form `cellSpec`: accepted iff eB ≤ info ∧
 eX ≤ data ∧ progressive rule ∧ end-of-text/≥0x7F only error-free ∧ not identical data with equal-or-worse level; level 0
 when both error-free, else 2·eB + 3·eX − 1). `updateSingle_cellSpec` is the same closed form for one byte.
 `C06_weight`: levels stay ≤ 9 and data errors outweigh info errors.
@@ -16,9 +17,9 @@ namespace RDS
 
 /-- C06 for every history and every next call -/
 theorem C06 (tb : Tabs) (h : EccOk tb) (ops : List Op) (op : Op) :
-    chkCells tb.cfg (monAfter tb.cfg ops) (recOf tb.cfg (run tb.cfg ops) op) = true := by
+    chkC06 tb.cfg (monAfter tb.cfg ops) (recOf tb.cfg (run tb.cfg ops) op) = true := by
   have hr := reach tb h ops
-  exact chkCells_ok tb _ _ op hr.1 hr.2
+  exact chkC06_ok tb _ _ op hr.1 hr.2
 
 /-- the weighted level: at most 9 for accepted error levels (≤ 2), and swapping a larger data error with a smaller
 info error always gives a larger level: data errors outweigh info errors -/
